@@ -1109,6 +1109,16 @@ func (c1 complexConst) binaryOp(op ast.OperatorType, c2 constant) (constant, err
 		return d1.binaryOp(op, d2)
 	}
 	switch op {
+	case ast.OperatorAddition, ast.OperatorSubtraction, ast.OperatorMultiplication:
+		// Operate on the big integer parts as rationals, so that the sums
+		// and the products of the parts do not overflow.
+		for _, p := range []*constant{&n1.r, &n1.i, &n2.r, &n2.i} {
+			if _, ok := (*p).(intConst); ok {
+				*p = intToRat(*p)
+			}
+		}
+	}
+	switch op {
 	case ast.OperatorEqual:
 		re, _ := n1.r.binaryOp(op, n2.r)
 		im, _ := n1.i.binaryOp(op, n2.i)
